@@ -26,6 +26,9 @@ var (
 
 func resetHead(arg, rootGoitPath string, logRecord *store.LogRecord, head *store.Head, refs *store.Refs, conf *store.Config) error {
 	// reset Head
+	if head.Commit == nil {
+		return fmt.Errorf("fatal: HEAD does not name a commit (branch '%s')", head.Reference)
+	}
 	prevHeadHash := head.Commit.Hash
 	if err := head.Reset(rootGoitPath, refs, logRecord.Hash); err != nil {
 		return fmt.Errorf("fail to reset HEAD: %w", err)
